@@ -1979,8 +1979,8 @@ Proof.
   eapply HTA_trans; [split; eassumption|].
   eapply fresh_arrays_typed; [exact HH1|exact G| |cbn; lia|cbn; lia].
   pose proof (HH1 _ _ G) as (_ & _ & T3 & T4 & T5).
-  assert (A : arrpres h1 ((h1 ++ [OArr (1 :: (if b then 1 else 0) ::
-       (if length (cluster_members h c) =? 1 then [] else cluster_members h c))]) ++
+  assert (A : arrpres h1 ((h1 ++ [OArr (if length (cluster_members h c) =? 1 then [1; 1]
+       else 1 :: (if b then 1 else 0) :: cluster_members h c)]) ++
        [OArr (2 :: cluster_members h c)])).
   { apply ext_arrpres. eapply ext_trans; apply ext_app. }
   cbn. split; [eapply oarr_new1; reflexivity|]. split; [eapply oarr_new2; reflexivity|].
@@ -2126,8 +2126,182 @@ Proof.
   destruct la, ba; cbv beta iota in E; cbn [app length] in E;
     (eapply empty_model_HT in E; [exact E| |eexists; reflexivity]);
     intros l o G; unfold get in G;
-    repeat (destruct l as [|l];
-            [cbn in G; inversion G; subst; clear G; cbn; try exact I;
-             split; intros l0 El0; inversion El0; subst; eexists; reflexivity|]);
-    cbn in G; destruct l; discriminate.
+    do 4 (destruct l as [|l];
+          [cbn in G; inversion G; subst; clear G; cbn; try exact I;
+           split; intros l0 El0; inversion El0; subst; eexists; reflexivity|]);
+    cbn in G; destruct l; cbn in G; discriminate.
 Qed.
+
+Lemma set_clusters_HT h s cs : HT h -> HTA h (set_clusters h s cs).
+Proof.
+  intros HH. unfold set_clusters.
+  destruct (get h s) as [[| | | | |a cl lab cost data]|] eqn:E; try (apply HTA_refl; assumption).
+  unfold alloc. cbv beta iota.
+  destruct (HT_alloc h (ORefs cs) HH I) as [H1 A1].
+  assert (E1 : get (h ++ [ORefs cs]) s = Some (OState a cl lab cost data)).
+  { rewrite get_app_old; auto. eapply get_lt; eauto. }
+  destruct (HT_upd _ s _ (OState a (length h) lab cost data) H1 E1 ltac:(cbn; lia) (fun x => x))
+    as [H2 A2].
+  split; auto. eapply arrpres_trans; eauto.
+Qed.
+
+Lemma set_cost_HT h s c : HT h -> HTA h (set_cost h s c).
+Proof.
+  intros HH. unfold set_cost.
+  destruct (get h s) as [[| | | | |a cl lab cost data]|] eqn:E; try (apply HTA_refl; assumption).
+  exact (HT_upd h s _ (OState a cl lab (Some c) data) HH E ltac:(cbn; lia) (fun x => x)).
+Qed.
+
+Lemma cache_write_HT : forall cs h, HT h -> HTA h (cache_write h cs).
+Proof.
+  induction cs as [|c r IH]; intros h HH; [apply HTA_refl; auto|].
+  rewrite cache_write_cons.
+  destruct (get h c) as [[| | | |ml ec mean ti cc ic ld|]|] eqn:E; try (apply IH; assumption).
+  assert (H1 : HTA h (upd h c (OCluster ml ec mean ti cc ti (cw_ld h ti)))).
+  { apply (HT_upd h c _ _ HH E); [cbn; lia|]. cbn. intros (T1 & T2 & T3 & T4 & T5).
+    repeat split; auto. }
+  eapply HTA_trans; [exact H1|]. apply IH. apply H1.
+Qed.
+
+Lemma refill_state_HT s m : forall order h rem draws h',
+  HT h -> refill_state h s m rem order draws = Some h' -> HTA h h'.
+Proof.
+  induction order as [|e order' IH]; intros h rem draws h' HH E.
+  - cbn in E. inversion E; subst. apply HTA_refl; auto.
+  - rewrite refill_state_cons in E.
+    destruct (find_donor _ _ _ _) as [[d rem']|]; [|discriminate].
+    set (ls := move _ d e _) in E.
+    destruct (HT_alloc h (OList ls) HH I) as [H1 A1].
+    pose proof (set_labels_HT _ s (length h) H1) as H2.
+    eapply HTA_trans; [split; eassumption|]. eapply HTA_trans; [exact H2|].
+    eapply IH; eauto. apply H2.
+Qed.
+
+Lemma phase_repopulate_HT h s spread order draws h' s' :
+  HT h -> phase_repopulate h s spread order draws = Some (h', s') -> HTA h h'.
+Proof.
+  intros HH. unfold phase_repopulate. destruct order as [|e order'].
+  - intros E. inversion E; subst. apply HTA_refl; auto.
+  - destruct (state_shallow_copy h s) as [h1 s1] eqn:E1.
+    destruct (map_heap cluster_deep_copy h1 (state_clusters h s)) as [h2 cs'] eqn:E2.
+    cbv zeta.
+    destruct (refill_state (set_clusters h2 s1 cs') s1 _ _ _ _) as [h4|] eqn:ER; [|discriminate].
+    intros E. inversion E; subst h' s'. clear E.
+    pose proof (state_shallow_copy_HT _ _ _ _ HH E1) as H1.
+    pose proof (map_heap_HT _ cluster_deep_copy_HT _ _ _ _ (proj1 H1) E2) as H2.
+    pose proof (set_clusters_HT h2 s1 cs' (proj1 H2)) as H3.
+    pose proof (refill_state_HT _ _ _ _ _ _ _ (proj1 H3) ER) as H4.
+    eapply HTA_trans; [exact H1|]. eapply HTA_trans; [exact H2|]. eapply HTA_trans; eauto.
+Qed.
+
+Lemma phase_optimise_HT h s mrf h' s' : HT h -> phase_optimise h s mrf = (h', s') -> HTA h h'.
+Proof.
+  intros HH. unfold phase_optimise.
+  destruct (map_heap_idx (opt_cluster mrf) h 0 (state_clusters h s)) as [h1 cs'] eqn:E1.
+  destruct (state_shallow_copy h1 s) as [h2 s1] eqn:E2.
+  intros E. inversion E; subst h' s'. clear E.
+  pose proof (map_heap_idx_HT _ (opt_cluster_HT mrf) _ _ _ _ _ HH E1) as H1.
+  pose proof (state_shallow_copy_HT _ _ _ _ (proj1 H1) E2) as H2.
+  pose proof (set_clusters_HT h2 s1 cs' (proj1 H2)) as H3.
+  eapply HTA_trans; [exact H1|]. eapply HTA_trans; eauto.
+Qed.
+
+Lemma phase_relabel_HT h s ls c h' s' : HT h -> phase_relabel h s ls c = (h', s') -> HTA h h'.
+Proof.
+  intros HH. unfold phase_relabel. cbv zeta.
+  set (h0 := cache_write h _).
+  pose proof (cache_write_HT _ h HH : HTA h h0) as H0.
+  destruct (state_shallow_copy h0 s) as [h1 s1] eqn:E1.
+  destruct (map_heap cluster_deep_copy h1 (state_clusters h0 s)) as [h2 cs'] eqn:E2.
+  unfold alloc. cbv beta iota. intros E. inversion E; subst h' s'. clear E.
+  pose proof (state_shallow_copy_HT _ _ _ _ (proj1 H0) E1) as H1.
+  pose proof (map_heap_HT _ cluster_deep_copy_HT _ _ _ _ (proj1 H1) E2) as H2.
+  pose proof (set_clusters_HT h2 s1 cs' (proj1 H2)) as H3.
+  set (h3 := set_clusters h2 s1 cs') in *.
+  pose proof (HT_alloc h3 (OList ls) (proj1 H3) I : HTA h3 _) as H4.
+  pose proof (set_labels_HT _ s1 (length h3) (proj1 H4)) as H5.
+  pose proof (set_cost_HT _ s1 c (proj1 H5)) as H6.
+  eapply HTA_trans; [exact H0|]. eapply HTA_trans; [exact H1|]. eapply HTA_trans; [exact H2|].
+  eapply HTA_trans; [exact H3|]. eapply HTA_trans; [exact H4|]. eapply HTA_trans; eauto.
+Qed.
+
+Lemma phase_statistics_HT h s b h' s' :
+  WF h s -> HT h -> phase_statistics h s b = Some (h', s') -> HTA h h'.
+Proof.
+  intros HWF HH. apply WF_SD in HWF.
+  destruct HWF as (a & cl & lab & cost & data & K & m & lam & beta & cs & HSD).
+  unfold phase_statistics.
+  rewrite (SD_clusters _ _ _ _ _ _ _ _ _ _ _ _ HSD), (SD_K _ _ _ _ _ _ _ _ _ _ _ _ HSD),
+          (SD_firstn _ _ _ _ _ _ _ _ _ _ _ _ HSD), (SD_skipn _ _ _ _ _ _ _ _ _ _ _ _ HSD).
+  destruct (forallb _ cs); [|discriminate].
+  destruct (state_shallow_copy h s) as [h1 s1] eqn:E1.
+  destruct (map_heap (stat_cluster b) h1 cs) as [h2 cs'] eqn:E2.
+  destruct (shallow_SD _ _ _ _ _ _ _ _ _ _ _ _ _ _ HSD E1) as (X1 & Hs1 & L1 & SD1 & I1).
+  destruct (map_heap_clus (stat_cluster b) (stat_cluster_clus b) cs h1 h2 cs' E2
+              (SD_isclus _ _ _ _ _ _ _ _ _ _ _ _ SD1)) as (X2 & _).
+  pose proof (SD_ext _ _ _ _ _ _ _ _ _ _ _ _ _ X2 SD1) as (A1 & A2 & A3 & _).
+  rewrite A1. intros E. inversion E; subst h' s'. clear E.
+  pose proof (state_shallow_copy_HT _ _ _ _ HH E1) as H1.
+  pose proof (map_heap_HT _ (stat_cluster_HT b) _ _ _ _ (proj1 H1) E2) as H2.
+  pose proof (HT_upd h2 (length h) _ (ORefs (cs' ++ [])) (proj1 H2) A3 ltac:(cbn; lia) (fun x => x)
+              : HTA h2 _) as H3.
+  eapply HTA_trans; [exact H1|]. eapply HTA_trans; eauto.
+Qed.
+
+Theorem step_HT h s o h' s' : WF h s -> HT h -> step (h, s) o = Some (h', s') -> HT h'.
+Proof.
+  intros HWF HH E.
+  destruct o as [ls| | |sp order draws|b|tg|ls c]; unfold step in E; cbv beta iota in E.
+  - unfold alloc in E. cbv beta iota in E. inversion E; subst h' s'. clear E.
+    destruct (HT_alloc h (OList ls) HH I) as [H1 _]. apply (set_labels_HT _ s (length h) H1).
+  - inversion E as [E']. apply (state_shallow_copy_HT _ _ _ _ HH E').
+  - inversion E as [E']. apply (state_deep_copy_HT _ _ _ _ HH E').
+  - apply (phase_repopulate_HT _ _ _ _ _ _ _ HH E).
+  - apply (phase_statistics_HT _ _ _ _ _ HWF HH E).
+  - inversion E as [E']. apply (phase_optimise_HT _ _ _ _ _ HH E').
+  - inversion E as [E']. apply (phase_relabel_HT _ _ _ _ _ _ HH E').
+Qed.
+
+Lemma run_ops_HT_gen ops : forall h s h' s',
+  WF h s -> Inv h s -> HT h -> run_ops (h, s) ops = Some (h', s') -> HT h'.
+Proof.
+  induction ops as [|o r IH]; intros h s h' s' HW HI HH E; cbn [run_ops] in E.
+  - inversion E; subst. auto.
+  - destruct (step (h, s) o) as [[h1 s1]|] eqn:Es; [|discriminate].
+    destruct (step_wf_inv _ _ _ _ _ HW HI Es) as [HW1 HI1].
+    pose proof (step_HT _ _ _ _ _ HW HH Es) as HH1. eapply IH; eauto.
+Qed.
+
+(* every configuration reachable from [init] is typed *)
+Theorem run_ops_typed K m la ba ops h s :
+  run_ops (init K m la ba) ops = Some (h, s) -> HT h /\ Typed h s.
+Proof.
+  intros E. pose proof (init_wf_inv K m la ba) as H0. pose proof (init_HT K m la ba) as H1.
+  destruct (init K m la ba) as [h0 s0]. destruct H0 as [HW HI]. cbn [fst] in H1.
+  pose proof (run_ops_HT_gen _ _ _ _ _ HW HI H1 E) as HH. split; auto. apply HT_Typed; auto.
+Qed.
+
+(* (T7) for reachable configurations, without the extra hypothesis *)
+Corollary deep_copy_fresh_reachable K m la ba ops h s h' s' :
+  run_ops (init K m la ba) ops = Some (h, s) -> state_labels h s <> None ->
+  state_deep_copy h s = (h', s') ->
+  unchanged h h' /\ Forall (fun l => length h <= l) (state_reach h' s') /\ WF h' s' /\
+  state_labels h' s' = state_labels h s /\
+  map (cluster_members h') (state_clusters h' s') = map (cluster_members h) (state_clusters h s).
+Proof.
+  intros E Hl Ed. destruct (run_ops_wf_inv _ _ _ _ _ _ _ E) as [HW _].
+  destruct (run_ops_typed _ _ _ _ _ _ _ E) as [_ HT0].
+  apply deep_copy_fresh; auto.
+Qed.
+
+Print Assumptions init_wf_inv.
+Print Assumptions step_wf_inv.
+Print Assumptions run_ops_wf_inv.
+Print Assumptions inv_partition.
+Print Assumptions frame_repopulate.
+Print Assumptions frame_statistics.
+Print Assumptions frame_optimise.
+Print Assumptions frame_relabel.
+Print Assumptions set_labels_immediate.
+Print Assumptions deep_copy_fresh.
+Print Assumptions deep_copy_fresh_reachable.
